@@ -88,3 +88,14 @@ func TestSim(t *testing.T) {
 		}
 	}
 }
+
+// TestC09Child is the child-process half of the C09 check (see props.C09KeysetChild).
+func TestC09Child(t *testing.T) {
+	v := os.Getenv("VERIF_C09_CHILD")
+	if v == "" {
+		t.Skip("only run as a child of the C09 check")
+	}
+	from := 0
+	fmt.Sscan(v, &from)
+	props.C09KeysetChild(from)
+}
